@@ -334,6 +334,7 @@ static std::string dump(Ctx & x)
 static void run_case(int k, const std::string & line)
 {
    g_case = k;
+   if (line.compare(0, 6, "sched,") == 0) {printf("%d sched-case\n", k); return;}   // stage-2 cases are run by tpool_sched_h.cpp
    const size_t bar = line.find('|');
    if (bar == std::string::npos) {printf("%d bad-case\n", k); return;}
    const std::string head = line.substr(0, bar), body = line.substr(bar+1);
